@@ -812,7 +812,7 @@ theorem closeBlobbers_effect : ∀ {l : List BA} {per : List (Nat × Nat)} {s s'
       · cases h
 
 theorem close_inv13 {s s' : State} {fin : Bool} {k : Nat} {c : Caller} {X : Nat} {per : List (Nat × Nat)}
-    (h : close s fin k c X per = .ok s') (hi : Inv13 s) : Inv13 s' := by
+    {rates : List (Nat × Nat × Nat)} (h : close s fin k c X per rates = .ok s') (hi : Inv13 s) : Inv13 s' := by
   unfold close at h
   split at h
   · cases h
